@@ -114,9 +114,9 @@ ImplForgetAll == /\ iPresent' = [s \in SeqIds |-> FALSE] /\ iTotal' = [s \in Seq
 
 \* ---------------------------------------------------------------- joint actions
 \* A conforming-or-not peer: header with any count, continuation with any id 0..MaxN+1.
-\* One header per incarnation of a sequence (a second header for a live sequence is outside
-\* what the property speaks about).
-Start(s, n) == /\ nops < MaxOps /\ aTotal[s] = 0
+\* A header may arrive again while its sequence is live (a duplicate like any other: same count);
+\* a second header announcing another count is outside what the property speaks about.
+Start(s, n) == /\ nops < MaxOps /\ (aTotal[s] = 0 \/ aTotal[s] = n)
                /\ AbsArrive(s, n, TRUE) /\ ImplStart(s, n)
                /\ act' = [name |-> "start", seq |-> s, id |-> n] /\ nops' = nops + 1
 Cont(s, id) == /\ nops < MaxOps
